@@ -364,6 +364,10 @@ void replay_write(const char *path, const char *comment)
 #define X(n, d) fprintf(f, "p %s %lld\n", #n, (long long)P.n);
 	PARAM_LIST(X)
 #undef X
+	if(!G.didx && !tr_n) { /* written by the parent for a child that died: decisions are re-drawn from dseed */
+		fclose(f);
+		return;
+	}
 	fprintf(f, "trace\n");
 	for(size_t i = 0; i < tr_n; i++)
 		fprintf(f, "d %llu %d %d\n", (unsigned long long)tr[i].idx, tr[i].kind, tr[i].val);
